@@ -295,12 +295,6 @@ impl fmt::Display for Formatter {
                     }
                     _ => unreachable!(),
                 };
-
-                if let Some(sep) = item.sep_char {
-                    write!(f, "{sep}")?;
-                } else if let Some(sep) = item.second_sep_char {
-                    write!(f, "{sep}")?;
-                }
             }
         }
         Ok(())
